@@ -30,7 +30,7 @@ MANIFEST = dict(
 
 ALPHABET = "&<>\"';#x1alt"
 RUNAWAY = 0x110000
-NAMES = "xml xmlce html html5 html5raw quote rt_xml q_xml ra_xml rt_html q_html ra_html rt_html5 q_html5 ra_html5 rt_raw ra_raw".split()
+NAMES = "xml xmlce html html5 html5raw quote html5old rt_xml q_xml ra_xml rt_html q_html ra_html rt_html5 q_html5 ra_html5 rt_raw ra_raw".split()
 KF_LEGACY = "C09-html5-bare-legacy-ref"
 KF_NUMERIC = "C09-html5-bare-numeric-ref"
 KF_SEMI = "C09-html5-unknown-ref-semicolon-dropped"
@@ -148,7 +148,10 @@ def real_case(s):
         quote = E.quoted_attribute_value(s)
     except Exception as e:  # an exception is an observable
         return "exc:" + type(e).__name__, [dict(what="substitution raised " + type(e).__name__, kind="exception", kf=None)], {"exception"}
-    fields = [xml, xmlce, html, html5, raw5, quote]
+    # what 4.13.0 as shipped computed (model: substHtml5Old), re-assembled from the live regexes and callbacks
+    esc = getattr(E, "_escape_entity_name", None) or (lambda m: "&amp;%s;" % m.group(1))
+    old5 = E.CHARACTER_TO_HTML_ENTITY_RE.sub(E._substitute_html_entity, E.ANY_ENTITY_RE.sub(esc, s))
+    fields = [xml, xmlce, html, html5, raw5, quote, old5]
     out = [tok(x) for x in fields]
     # Formatter.substitute / attribute_value of every registered formatter = its function
     fn = {"minimal": xml, "html": html, "html5": html5, "html5-4.12": html, None: s}
@@ -508,7 +511,7 @@ def context_checks(ctx, drv):
             ctx.count(f"oracle-fail:{stream}" + (":known" if f.get("kf") else ""))
             ctx.violation(f["what"], case=case | {"step": f["step"], "kinds": f.get("kinds"), "written": f.get("written")},
                           expected=f.get("expected"), observed=f.get("observed"), stream=stream, kf=f.get("kf"))
-        real_fail = any(f.get("kf") is None for f in fails)
+        real_fail = any(f.get("kf") not in ctx.known for f in fails)
         for l, r in corr:
             lines.append(l)
             impl.append(r)
@@ -599,7 +602,7 @@ def run(ctx: Ctx):
         case = {"op": "subst", "s": tok(s), "repr": ascii(s)}
         real_fail = False
         for f in fails:
-            real_fail = real_fail or f.get("kf") is None
+            real_fail = real_fail or f.get("kf") not in ctx.known
             ctx.count("oracle-fail:" + f["kind"] + (":known" if f.get("kf") else ""))
             ctx.violation(f["what"], case=case | {"kind": f["kind"], "kinds": f.get("kinds"), "written": f.get("written")},
                           expected=f.get("expected"), observed=f.get("observed"), stream=stream, kf=f.get("kf"))
